@@ -31,8 +31,23 @@ class _Unchain(ast.NodeTransformer):
         return ast.copy_location(ast.BoolOp(op=ast.And(), values=parts), n)
 
 
+class _Unpack(ast.NodeTransformer):
+    """`a, b = args` (a name on the right) -> `a = args[0]; b = args[1]`, so that sa.tables can inline the single-definition locals."""
+
+    def visit_Assign(self, n: ast.Assign) -> T.Any:
+        if len(n.targets) == 1 and isinstance(n.targets[0], (ast.Tuple, ast.List)) and isinstance(n.value, ast.Name) \
+                and all(isinstance(t, ast.Name) for t in n.targets[0].elts):
+            out = []
+            for i, t in enumerate(n.targets[0].elts):
+                st = ast.Assign(targets=[ast.Name(id=t.id, ctx=ast.Store())],        # type: ignore[attr-defined]
+                                value=ast.Subscript(value=ast.Name(id=n.value.id, ctx=ast.Load()), slice=ast.Constant(value=i), ctx=ast.Load()))
+                out.append(ast.copy_location(st, n))
+            return out
+        return n
+
+
 def _unchained(fn: ast.FunctionDef) -> ast.FunctionDef:
-    f = _Unchain().visit(copy.deepcopy(fn))
+    f = _Unpack().visit(_Unchain().visit(copy.deepcopy(fn)))
     ast.fix_missing_locations(f)
     return f
 
@@ -118,10 +133,23 @@ def r9(ctx: RuleCtx) -> None:
     _bounds_table(ctx, mod, qn, fn, 'ARG1[0]', 'len(self.held_object)', True, classify, 'return self.held_object[ARG1[0]]', want_out)
     # str.format: placeholder @N@ is valid iff N < number of arguments
     smod = repo.module(STRING)
-    cands = [q for q in smod.funcs() if q.startswith('StringHolder.format_method.')]
-    if len(cands) != 1:
-        raise Undecided('StringHolder.format_method: expected one nested replacement callback')
-    rfn = smod.func(cands[0])
+    fm = None
+    for st in smod.cls('StringHolder').body:
+        if isinstance(st, ast.FunctionDef) and any(isinstance(d, ast.Call) and (attr_chain(d.func) or '').endswith('.method') and d.args and isinstance(d.args[0], ast.Constant)
+                                                   and d.args[0].value == 'format' for d in st.decorator_list):
+            fm = st
+    if fm is None:
+        raise Undecided('StringHolder registers no `format` method')
+    subs = [c for c in ast.walk(fm) if isinstance(c, ast.Call) and (attr_chain(c.func) or '').endswith('.sub') and len(c.args) >= 2]
+    if len(subs) != 1:
+        raise Undecided('StringHolder.format: expected one regex substitution with a replacement callback')
+    cb = subs[0].args[1] if attr_chain(subs[0].func) == 're.sub' and len(subs[0].args) >= 3 else subs[0].args[0]      # re.sub(p, cb, s) / P.sub(cb, s)
+    nested = {s_.name: s_ for s_ in ast.walk(fm) if isinstance(s_, ast.FunctionDef) and s_ is not fm}
+    if isinstance(cb, ast.Name) and cb.id in nested:
+        rfn = nested[cb.id]
+    else:
+        raise Undecided(f'StringHolder.format: replacement callback {norm(cb)} is not a local function')
+    cands = [f'StringHolder.{fm.name}.{rfn.name}']
     lens = {norm(c) for c in ast.walk(rfn) if isinstance(c, ast.Call) and norm(c.func) == 'len' and len(c.args) == 1}
     if len(lens) != 1:
         raise Undecided(f'{cands[0]}: expected one len(...) in the bounds test')
@@ -323,4 +351,95 @@ def r10(ctx: RuleCtx) -> None:
                               f'the legitimate values false, 0, \'\', [] and {{}} would be treated as "not given"; presence must be tested with `is None` / `is not None`', e)
             if not hits:
                 ctx.ok(f'{name}: presence of the optional argument #{idx + 1} is never decided by truthiness ({qn} and the same-class helpers it is handed to)')
-    ctx.floor('functions with an optional positional argument typed object', n, 7)
+    ctx.floor('functions with an optional positional argument typed object', n, 4)
+
+
+# ---------------------------------------------------------------------------
+# R11: get_variable(name[, fallback]) reads exactly the variable table; a miss is the KeyError that selects the fallback
+# ---------------------------------------------------------------------------
+
+IB_REL = 'mesonbuild/interpreterbase/interpreterbase.py'
+
+
+def _accessor_summary(ctx: RuleCtx) -> T.Optional[str]:
+    """What InterpreterBase.get_variable does beyond indexing self.variables (read off its rows), or None if it cannot be summarised."""
+    from .c01_sym import sym_paths, is_call
+    im = ctx.repo.module(IB_REL)
+    if not im.has_func('InterpreterBase.get_variable'):
+        return None
+    fn = im.func('InterpreterBase.get_variable')
+    name = fn.args.args[1].arg
+    other_tables = set()
+    raises = set()
+    for sp in sym_paths(fn):
+        r = sp.result
+        if sp.outcome == 'return' and isinstance(r, tuple) and r[0] == 'sub' and r[1][0] == 'name' and r[2] == ('name', name):
+            if r[1][1] != 'self.variables':
+                other_tables.add(r[1][1])
+        elif sp.outcome == 'raise' and is_call(r):
+            raises.add(r[2].split('.')[-1])
+        else:
+            return None
+    bits = []
+    if other_tables:
+        bits.append(f'also resolves names from {sorted(other_tables)}')
+    if raises and 'KeyError' not in raises:
+        bits.append(f'signals an unknown name with {sorted(raises)}, not KeyError')
+    return '; '.join(bits) if bits else ''
+
+
+def r11(ctx: RuleCtx) -> None:
+    from .c01_sym import sym_paths, is_call, show
+    repo = ctx.repo
+    n = 0
+    for rel in R10_FILES:
+        mod = repo.module(rel)
+        for c, fn, name, idx in _instances(mod.tree):
+            if name.split('.')[-1] != 'get_variable':
+                continue
+            meths = {s.name: s for s in c.body if isinstance(s, ast.FunctionDef) and s is not fn}
+            argsp = [a.arg for a in fn.args.args][-2]
+            qn = f'{c.name}.{fn.name}'
+            sps = sym_paths(fn, handlers=True, helpers=meths, mod=mod)
+            key = ('sub', ('name', argsp), ('const', 0))
+            judged = 0
+            for sp in sps:
+                if sp.outcome != 'return' or any(a.kind == 'exc' for a in sp.actions):
+                    continue
+                r = sp.result
+                if r == key or r == ('const', None):
+                    continue            # disabler passed through
+                # an `unholder_return`-style wrapper is applied by a decorator, not in the body
+                if isinstance(r, tuple) and r[0] == 'sub' and r[1][0] == 'name' and r[1][1].split('.')[-1] == 'variables' and r[2] == key:
+                    judged += 1
+                    ctx.ok(f'{name}: a defined variable is read from {r[1][1]}[name]')
+                    continue
+                own = {s_.name for s_ in c.body if isinstance(s_, ast.FunctionDef)}
+                if is_call(r) and r[4] == (key,) and (r[2] == 'self.held_object.get_variable' or (r[2] == 'self.get_variable' and 'get_variable' not in own)):
+                    why = _accessor_summary(ctx)
+                    if why:
+                        judged += 1
+                        ctx.violation(mod, qn, f'{name}: lookup through {r[2]}',
+                                      f'{name}() looks the name up with the interpreter accessor {r[2]}(), which {why}: only variables may be reachable and a miss must '
+                                      f'select the fallback (the handler catches KeyError)', sp.last_node)
+                        continue
+                fb = ('sub', ('name', argsp), ('const', idx))
+                if is_call(r) and r[2].split('.')[-1] == '_holderify' and r[4] == (fb,):
+                    # the miss row of a look-before-you-leap spelling: it must be selected by `name not in <the same table>`
+                    tabs = {t[2][1] for t, v in sp.conds() if isinstance(t, tuple) and t[:2] in (('op', 'In'), ('op', 'NotIn')) and t[2][0] == key
+                            and ((t[1] == 'In') != v)}
+                    if len(tabs) == 1 and next(iter(tabs))[0] == 'name' and next(iter(tabs))[1].split('.')[-1] == 'variables':
+                        continue
+                    raise Undecided(f'{qn}: the fallback row is not selected by a membership test on the variable table')
+                if r == fb:
+                    continue
+                raise Undecided(f'{qn}: the variable lookup has the shape {show(r)}, which this rule does not model')
+            if not judged:
+                raise Undecided(f'{qn}: no lookup row found')
+            # the miss handler is KeyError (the exception a dict subscript raises)
+            hs = {a.term.split('.')[-1] for sp in sps for a in sp.actions if a.kind == 'exc'}
+            if hs:
+                ctx.require(hs == {'KeyError'}, f'{name}: a miss is the KeyError of the table lookup', mod, qn, f'{name}: miss handler {sorted(hs)}',
+                            f'{name}() handles {sorted(hs)} around the lookup; the dict lookup signals an unknown variable with KeyError', fn)
+            n += 1
+    ctx.floor('get_variable functions with a fallback', n, 1)
